@@ -136,7 +136,7 @@ CHARS = ["%", "%s", "%%", "\\\\", "$", "$$", "{", "}", "{}", "{A}", "'", "é", "
 def boundary_program(r, k):
     p = "B%d" % k; out = []
     def txt(): return "w%s %s x" % (r.choice(NUMS[:8]), r.choice(CHARS))
-    shape = r.choice(["manytexts", "manymoves", "longlists", "adjacent", "empties", "numbers", "elifs", "cases", "names", "edges", "manyscripts", "repeats", "repeats", "nested"])
+    shape = r.choice(["manytexts", "manymoves", "longlists", "adjacent", "empties", "numbers", "elifs", "cases", "names", "edges", "manyscripts", "repeats", "repeats", "nested", "constsites", "constsites"])
     if shape == "manytexts":
         n = r.choice([10, 11, 12, 21])
         out.append("script %s {\n%s\n}" % (p, "\n".join('  msgbox("t%d %s")' % (i, r.choice(CHARS)) for i in range(n))))
@@ -189,6 +189,23 @@ def boundary_program(r, k):
         first = r.choice(["mart E_m { ITEM_A }", 'text E_t { "x" }', "movement E_v { walk_up }", "raw `x`", "const E_K = 1", "# c", "mapscripts E_s { }", ""])
         out.append(first); out.append("script %s { lock }" % p)
         out.append(r.choice(["mart %s_m { ITEM_A }" % p, 'text %s_t { "x%%" }' % p, "movement %s_v { walk_up }" % p, "raw `y`", "const %s_K = 2" % p, "// end", "script %s_z { end }" % p]))
+    elif shape == "constsites":
+        # constants (short, 31 / 32 / 40-byte and non-ASCII names; plain, multi-token and %-values) at every site where a
+        # constant is substituted, and at the places where it must NOT be (names, labels, steps, text, map script targets,
+        # statements written BEFORE the definition)
+        names = ["K", "K_" + "A" * 29, "K_" + "B" * 30, "FLAG_HIDE_LITTLEROOT_TOWN_RIVAL_BEDROOM_X", "ÉTAGE_" + "é" * 14, "VAR_RESULT", "Ext_Target", "walk_up"]
+        vals = ["3", "FLAG_TEMP_1", "BASE + 2", "ITEM_X", "D % 5", "( N + 1 ) * 2", "VAR_TEMP_9", "0x1F"]
+        k1, k2, k3 = r.sample(names, 3); v1, v2, v3 = r.choice(vals), r.choice(vals), r.choice(vals)
+        out.append("mart %s_early { ITEM_A %s ITEM_B }" % (p, k1))
+        out.append("script %s_early { setvar(%s, %s) if (flag(%s)) { a } }" % (p, k1, k2, k3))
+        out.append("const %s = %s\nconst %s = %s\nconst %s = %s %s" % (k1, v1, k2, v2, k3, k1, r.choice(["", "+ 1", k2])))
+        out.append("script %s {\n  cmd(%s, %s + 1, (%s))\n  if (flag(%s) && !defeated(TRAINER_BASE + %s) || var(VAR_BASE + %s) >= %s + 1) { a }\n"
+                   "  if (var(%s) == value(%s)) { b }\n  while (checkitem(%s, %s) == %s) { c }\n  switch (var(%s)) { case %s: d case %s + 1: e }\n  switch (random(%s)) { case 0: f }\n"
+                   "  %s: g goto(%s)\n  applymovement(%s, moves(walk_up * 2 %s))\n  msgbox(\"%s\")\n}" % (p, k1, k2, k3, k1, k2, k3, k1, k2, k3, k1, k2, k3, k1, k2, k3, k1, p + "_lab", p + "_lab", k1, k2 if k2 == "walk_up" else "face_left", k1))
+        out.append("mart %s_m { ITEM_A %s %s ITEM_B }" % (p, k1, k2))
+        out.append("mapscripts %s_ms { MAP_SCRIPT_ON_LOAD: %s MAP_SCRIPT_ON_FRAME_TABLE [ %s, %s: %s  VAR_T + %s, %s + 1 { lock } ] }" % (p, r.choice([k1, "Ext_Target"]), k1, k2, r.choice([k3, "Ext_Target"]), k1, k2))
+        out.append("movement %s_mv { walk_up * 2 %s }" % (p, "walk_up" if "walk_up" in (k1, k2, k3) else "face_left"))
+        out.append('text %s_t { "%s %s" }' % (p, k1, k2))
     elif shape == "repeats":
         # one construct many times in one file (past 32 / 64 / 128): per-file counters, caps, leaks
         n = r.choice([17, 33, 34, 40, 65, 70, 130])
@@ -201,11 +218,21 @@ def boundary_program(r, k):
                  "L%d: a%d goto(L%d)",
                  'msgbox(format("aa bb cc dd ee %d", "F1", %d)) msgbox(format("%d aa"))']
         f = r.choice(forms)
-        if r.random() < 0.5:
+        if r.random() < 0.2:
+            # many poryswitch statements of the list / text kind in one file, then one in a script
+            kind = r.choice(["text", "movement", "mart"])
+            for i in range(n):
+                if kind == "text": out.append('text %s_%d { poryswitch(V) { A: "a%d" B { "b%d" } _: "other%d" } }' % (p, i, i, i, i))
+                elif kind == "movement": out.append("movement %s_%d { walk_up poryswitch(V) { A: face_left B { walk_down * 2 } _: step_%d } }" % (p, i, i))
+                else: out.append("mart %s_%d { ITEM_A poryswitch(V) { A: ITEM_B B { ITEM_C } _: ITEM_%d } }" % (p, i, i))
+            out.append("script %s_last { poryswitch(V) { A: a B { b } _: c } }" % p)
+            f = None
+        if f is None: pass
+        elif r.random() < 0.5:
             for i in range(n): out.append("script %s_%d { %s }" % (p, i, f % (i, i, i)))
         else:
             out.append("script %s {\n%s\n}" % (p, "\n".join("  " + f % (i, i, i) for i in range(n))))
-        if r.random() < 0.3: out.append("mapscripts %s_ms { MAP_SCRIPT_ON_FRAME_TABLE [ %s ] }" % (p, " ".join("VAR_T, %d { %s }" % (i, f % (i, i, i)) for i in range(n // 4))))
+        if f is not None and r.random() < 0.3: out.append("mapscripts %s_ms { MAP_SCRIPT_ON_FRAME_TABLE [ %s ] }" % (p, " ".join("VAR_T, %d { %s }" % (i, f % (i, i, i)) for i in range(n // 4))))
     elif shape == "nested":
         # deep nesting of one or two constructs
         d = r.choice([5, 9, 17, 33]); inner = "core"
@@ -278,6 +305,6 @@ def gen_cli(rnd, n):
         cfg = Cfg(optimize=rnd.random() < 0.5, lm=rnd.random() < 0.6, lint=False,
                   path=rnd.choice(["", "", "in.pory", "a b.pory", "Route%20101.pory", "%s%d.pory", "./x.pory", "d1/d2//y.pory", "é.pory", "dir\\sub\\f.pory"]),
                   deffont=rnd.choice(["", "", "sign", "dialog", "nope"]), maxlen=rnd.choice([0, 0, 0, 40, 1000]), switches=sw,
-                  autovars=dict(AUTOVARS), fontdefault=rnd.choice(["dialog", "dialog", "sign", ""]), fonts=fonts)
+                  autovars=dict(AUTOVARS), fontdefault=rnd.choice(["dialog", "dialog", "sign", ""]), fonts=fonts, nofc=rnd.random() < 0.12)
         out.append(Case(compile_line(cfg, src), src, cfg, {"mix": True, "glue": True}))
     return out
